@@ -10,6 +10,7 @@ import (
 	"strings"
 
 	"golang.org/x/tools/go/packages"
+	"golang.org/x/tools/go/ssa"
 )
 
 func init() {
@@ -905,6 +906,53 @@ func checkPipeline(c *Ctx) {
 		return true
 	})
 	c.Check("R2.4", "a pattern error is returned", fd.Pos(), errRet, "the parse error is not returned")
+	// must-pass-through: every successful return hands out an automaton that derives from the parsed pattern
+	if fn := c.SSAFunc(sp, fd); fn != nil {
+		var parseCall *ssa.Call
+		allCalls(fn, func(call ssa.CallInstruction) {
+			if n := staticCalleeName(call); strings.HasSuffix(n, "regex/parser/nfa.Parse") {
+				parseCall, _ = call.(*ssa.Call)
+			}
+		})
+		nRet := 0
+		for _, b := range fn.Blocks {
+			ret, ok := b.Instrs[len(b.Instrs)-1].(*ssa.Return)
+			if !ok || len(ret.Results) != 2 || !isNilConst(retOperand(ret, 1)) {
+				continue
+			}
+			nRet++
+			from := false
+			seen := map[ssa.Value]bool{}
+			var walk func(v ssa.Value)
+			walk = func(v ssa.Value) {
+				if v == nil || seen[v] {
+					return
+				}
+				seen[v] = true
+				switch x := v.(type) {
+				case *ssa.Call:
+					if x == parseCall {
+						from = true
+						return
+					}
+					// a method chain on the automaton: follow the receiver
+					if len(x.Call.Args) > 0 && x.Call.StaticCallee() != nil && x.Call.StaticCallee().Signature.Recv() != nil {
+						walk(x.Call.Args[0])
+					}
+				case *ssa.Extract:
+					walk(x.Tuple)
+				case *ssa.Phi:
+					for _, e := range x.Edges {
+						walk(e)
+					}
+				}
+			}
+			walk(retOperand(ret, 0))
+			c.Check("R2.4", "every automaton handed out is the parsed pattern's (no path around the pattern parser)", ret.Pos(), parseCall != nil && from,
+				"a successful return hands out an automaton that does not derive from nfa.Parse(pattern): some patterns bypass the documented pattern language (anchors, escapes, validation)", "T = /^let/")
+		}
+		c.Check("R2.4", "the pattern compiler has a successful return", fd.Pos(), nRet >= 1, "no successful return found")
+	}
 	// the returned automaton: chain of methods on the parsed NFA containing ToDFA, all from the language-preserving set
 	preserving := map[string]bool{"ToDFA": true, "Minimize": true, "EliminateDeadStates": true, "ReindexStates": true, "EliminateUnreachableStates": true, "Clone": true}
 	chainOK, hasToDFA := false, false
